@@ -299,6 +299,11 @@ fn final_ret(s: &dyn Stepper) -> Ret {
 pub fn run_single(spec: &GraphSpec, cfg: &RunCfg, schedule: Schedule) -> SingleResult {
     let mut g = build_graph(spec);
     let facts = GraphFacts::new(spec, &g);
+    if cfg.on_clone {
+        let c = g.clone();
+        drop(g);
+        g = c;
+    }
     run_on(&mut g, facts, cfg, schedule)
 }
 
